@@ -141,8 +141,9 @@ Proof. intros steps d toks s r. exact (exec_f_depth_mono steps d toks s r). Qed.
    The two `cost` hypotheses say that the per-loop fuel `steps` suffices (cost is the explicit bound of C05).
    What is missing for the property as worded (on SOURCE TEXT): lex (pre ++ call ++ post) = lex pre ++ [TValue] ++
    lex post and lex (pre ++ text ++ post) = lex pre ++ lex text ++ lex post (compositionality of the lexer at
-   command boundaries), and call sites INSIDE a loop body / Sub / another macro (there the call-site condition has
-   to hold in the state of every pass).  Those are covered by the oracle of tools/props/c09.py only. *)
+   command boundaries), and call sites inside Sub{...} / a tuplet / another macro text; call sites INSIDE loop
+   bodies are the next theorem (for contexts of quiet tokens, where the call-site condition holds at every pass).
+   What is missing is covered by the oracle of tools/props/c09.py only. *)
 Theorem C09_macro_inline_seq_partial : forall (steps d : nat) (p1 q p2 : prog tok)
     (name : list Z) (args : option (list (option marg))) (ln : Z) (s0 : song),
   leaves_ok p1 = true -> leaves_ok q = true -> leaves_ok p2 = true ->
@@ -157,6 +158,31 @@ Theorem C09_macro_inline_seq_partial : forall (steps d : nat) (p1 q p2 : prog to
   exec_f (S d) steps (toks_of p1 ++ toks_of q ++ toks_of p2) (Ok s0)
   = exec_f (S d) steps (toks_of p1 ++ [TValue name args ln] ++ toks_of p2) (Ok s0).
 Proof. exact macro_inline_exec. Qed.
+
+(* PARTIAL (token level, call sites ANYWHERE in a structured program: top level, inside loops nested to any depth,
+   before or after a ':', any number of call sites).  c is a context: a structured program whose leaves are tokens
+   (Some t) or the place of the call (None).  `fill tok tv c` puts the call token at every such place, `splice tok q c`
+   the structured program q.  All tokens of c and q are `quiet` (notes, rests, every state command, chords, track /
+   channel / voice / tempo / key commands ...: everything except Sub, tuplets, nested macro calls and the three
+   commands that can write to the log), so the lexer state ls0 in which the text of the macro lexes to the tokens of
+   q - defining nothing - is the lexer state at every pass.  wcost is the per-loop fuel bound of C05 read off the
+   program (counts do not depend on the state).
+   Missing for the property as worded: the same as for C09_macro_inline_seq_partial on the lexer side, and call
+   sites inside Sub{...} / a tuplet / another macro text (nested exec() calls, not positions of the token list). *)
+Theorem C09_macro_inline_loops_partial : forall (steps d : nat) (c : prog (option tok)) (q : prog tok)
+    (name : list Z) (args : option (list (option marg))) (ln : Z) (ls0 : lexstate) (body : list Z) (tag : Z) (s0 : song),
+  ctx_leaves tok (fun t => quiet_tok t = true) c ->
+  all_leaves tok (fun t => quiet_tok t = true) q ->
+  vars_get name (lx_vars ls0) = Some (VStr body tag) ->
+  lex ls0 (call_text args body) ln = Ok (toks_of q, ls0) ->
+  ls_of_song s0 = ls0 ->
+  (wcost tok cnt0 (fill tok (TValue name args ln) c) < steps)%nat ->
+  (wcost tok cnt0 (splice tok q c) < steps)%nat ->
+  (wcost tok cnt0 q < steps)%nat ->
+  exec_f (S d) steps (toks_of (fill tok (TValue name args ln) c)) (Ok s0) <> OutOfFuel ->
+  exec_f (S d) steps (toks_of (splice tok q c)) (Ok s0)
+  = exec_f (S d) steps (toks_of (fill tok (TValue name args ln) c)) (Ok s0).
+Proof. exact macro_inline_ctx. Qed.
 
 (* the token list of a structured program is what exec() is given: [ and ] and : are the loop tokens *)
 Theorem C09_toks_of_flatten : forall p : prog tok, leaves_ok p = true -> map to_ltok (toks_of p) = flatten p.
@@ -198,6 +224,34 @@ Proof.
   - vm_compute. lia.
   - intros s1 E _. vm_compute in E. injection E as <-.
     exists [100; 32; 91; 50; 32; 101; 93], 0. split; vm_compute; reflexivity.
+  - vm_compute. discriminate.
+Qed.
+
+(*   c [3 #A : e ] #A g   against   c [3 d [2 e] : e ] d [2 e] g   (the definition of #A as above) *)
+Definition ex_ctx : prog (option tok) :=
+  PCons (Leaf (Some (ex_note 0)))
+    (PCons (Loop 3 (PCons (Leaf None) PNil) (Some (PCons (Leaf (Some (ex_note 4))) PNil)))
+       (PCons (Leaf None) (PCons (Leaf (Some (ex_note 7))) PNil))).
+
+Example C09_macro_inline_loops_example :
+  toks_of (fill tok ex_call ex_ctx)
+  = [ex_note 0; TLoopBegin 3; ex_call; TLoopBreak; ex_note 4; TLoopEnd; ex_call; ex_note 7] /\
+  exec_f 4 100 (toks_of (splice tok ex_q ex_ctx)) (Ok ex_s0) = exec_f 4 100 (toks_of (fill tok ex_call ex_ctx)) (Ok ex_s0) /\
+  match exec_f 4 100 (toks_of (fill tok ex_call ex_ctx)) (Ok ex_s0) with
+  | Ok s' => length (tr_events (cur_track s')) = 16%nat
+  | _ => False
+  end.
+Proof.
+  split; [reflexivity|]. split; [|vm_compute; reflexivity].
+  apply (C09_macro_inline_loops_partial 100 3 ex_ctx ex_q [35; 65] None 0 ex_ls [100; 32; 91; 50; 32; 101; 93] 0 ex_s0).
+  - cbn. repeat split; reflexivity.
+  - cbn. repeat split; reflexivity.
+  - vm_compute. reflexivity.
+  - vm_compute. reflexivity.
+  - vm_compute. reflexivity.
+  - vm_compute. lia.
+  - vm_compute. lia.
+  - vm_compute. lia.
   - vm_compute. discriminate.
 Qed.
 
@@ -286,6 +340,7 @@ Print Assumptions C09_macro_inline.
 Print Assumptions C09_macro_step_general.
 Print Assumptions C09_exec_depth_mono.
 Print Assumptions C09_macro_inline_seq_partial.
+Print Assumptions C09_macro_inline_loops_partial.
 Print Assumptions C09_toks_of_flatten.
 Print Assumptions C09_rhythm.
 Print Assumptions C09_rhythm_redefine.
